@@ -92,3 +92,13 @@ Example C01_nonvacuous :
   sat_rexpr (fun _ _ => true) (walk_row ex_row) (RCond (Some (lit "a", lit "."))) = true /\
   sat_bexpr (fun _ => []) (walk_row ex_row) (BCond (Some (CField (lit "a")))) = true.
 Proof. split; reflexivity. Qed.
+
+(* ---- kernel ties (DESIGN.md 10.7).  The Go functions the theorems above are about are translated
+   from the current source on every run (Generated/Kernels.v); each tie states that the translated
+   function equals the model definition used above, on the whole range of the Go types
+   (Generated/KernelTie.v; `True` for a kernel the translator reports as not translated). ---- *)
+From BS Require Import Generated.KernelTie Proofs.KTie_eval_minmax.
+
+Theorem C01_kernel_tie_eval_minmax : tie_eval_minmax.
+Proof. exact k_eval_minmax_tie. Qed.
+Print Assumptions C01_kernel_tie_eval_minmax.
